@@ -1069,6 +1069,70 @@ package gedcom
 //@   only C12
 //@   trusted
 //@   pure
+// C12: names. JaroWinkler never lowers the Jaro score, leaves it alone at or
+// below the boost threshold, and stays in [0,1] for a prefix size of at most
+// 10 (the boost is 0.1 per matching prefix character of what is left to 1).
+// float64 is modelled as Real and constants are exact: the double nearest to
+// 0.1 is 0.1 + 5.6e-18, so over the reals ten matching characters overshoot 1
+// by up to 5.6e-17; the provable upper bound is 1 + 1e-15 (ONE_EPS).
+//@ func JaroWinkler
+//@   props C12
+//@   safety
+//@   ghost J real = 0.0
+//@   oncall jaro check same-strings: arg0 == a && arg1 == b
+//@   oncall jaro do J = result
+//@   loop 1 invariant counts: 0.0 <= prefixMatch && prefixMatch <= real(i) && i >= 0 && (i <= prefixSize || (prefixSize < 0 && i == 0)) && prefixSize <= len(a) && prefixSize <= len(b) && prefixSize <= prefixSize0
+//@   ensures no-boost: implies(J <= boostThreshold, result == J)
+//@   ensures never-lower: result >= J
+//@   ensures range: implies(prefixSize0 <= 10, 0.0 <= result && result <= 1.000000000000001)
+//@   assigns E.int, E.bool, alloc
+//@ func minInt
+//@   props C12
+//@   safety
+//@   requires len(values) > 0
+//@   ensures least: forall(i, 0, len(values), result <= old(values[i]))
+//@   ensures member: exists(i, 0, len(values), result == old(values[i]))
+//@   assigns E.int
+// Jaro: every character of a is matched at most once (one match per round of
+// the outer loop) and every character of b at most once (a position of b is
+// marked when it is taken and marked positions are skipped), so neither ratio
+// exceeds 1; half the transpositions never exceed the matches.
+//@ func jaro
+//@   props C12
+//@   safety
+//@   oncall avg check a-ratio: 0.0 <= arg0[0] && arg0[0] <= 1.0
+//@   oncall avg check b-ratio: 0.0 <= arg0[1] && arg0[1] <= 1.0
+//@   oncall avg check order-ratio: 0.0 <= arg0[2] && arg0[2] <= 1.0
+//@   loop 1 invariant tallies: i >= 0 && i <= len(a) && 0.0 <= halfs && halfs <= matches && matches <= real(i) && matchRange >= 0.0 && len(transposed) == len(b) && matches == real(counttrue(transposed)) && matches <= real(len(b))
+//@   loop 2 invariant window: j >= 0 && j >= start && 0.0 <= halfs && halfs <= matches && matches <= real(i) && i >= 0 && i < len(a) && matchRange >= 0.0 && len(transposed) == len(b) && end <= len(b) - 1 && matches == real(counttrue(transposed)) && matches <= real(len(b))
+//@   ensures range: 0.0 <= result && result <= 1.0
+//@   assigns E.bool, alloc
+// The mean of three numbers (the only way avg is called) is their sum over 3.
+//@ func sum
+//@   props C12
+//@   safety
+//@   loop 1 invariant three-terms: rangeindex < len(numbers) && implies(len(numbers) == 3, total == ite(rangeindex >= 0, numbers[0], 0.0) + ite(rangeindex >= 1, numbers[1], 0.0) + ite(rangeindex >= 2, numbers[2], 0.0))
+//@   ensures three-terms: implies(len(numbers) == 3, result == numbers[0] + numbers[1] + numbers[2])
+//@   assigns nothing
+//@ func avg
+//@   props C12
+//@   safety
+//@   ensures three-terms: implies(len(numbers) == 3, result == (numbers[0] + numbers[1] + numbers[2]) / 3.0)
+//@   assigns nothing
+//@ func StringSimilarity
+//@   props C12
+//@   ensures range: implies(prefixSize <= 10, 0.0 <= result && result <= 1.000000000000001)
+//@   assigns E.int, E.bool, alloc
+// An individual: nil on either side is the neutral 0.5; otherwise the name
+// score is the best of the name pairs and the result is the convex
+// combination of the name score and the mean of the two date scores.
+//@ func IndividualNode.Similarity
+//@   props C12
+//@   opaque IndividualNode.Names, IndividualNode.EstimatedBirthDate, IndividualNode.EstimatedDeathDate, NameNode.String
+//@   loop 1 invariant best-so-far: 0.0 <= nameSimilarity && implies(options.JaroPrefixSize <= 10, nameSimilarity <= 1.000000000000001)
+//@   loop 2 invariant best-so-far: 0.0 <= nameSimilarity && implies(options.JaroPrefixSize <= 10, nameSimilarity <= 1.000000000000001)
+//@   ensures neutral: implies(node == nil || other == nil, result == 0.5)
+//@   ensures range: implies(options.JaroPrefixSize <= 10 && options.MaxYears > 0.0 && 0.0 <= options.NameToDateRatio && options.NameToDateRatio <= 1.0, 0.0 <= result && result <= 1.000000000000001)
 //@ func IndividualNodes.Similarity
 //@   props C12
 //@   ensures both-empty: implies(len(nodes) == 0 && len(other) == 0, result == 1.0)
